@@ -409,6 +409,25 @@ fn run_params<C: Suite>() -> Outcome {
             o.count("invalid_params_refused", 1);
         }
     }
+    // identifier lists whose length is n + 65536 (n after truncation to 16 bits), all distinct
+    {
+        let long: Vec<Id<C>> = (1u64..=65536 + 5).map(|i| Identifier::<C>::new(sc_u64::<C>(i)).unwrap()).collect();
+        for (n, t) in [(2u16, 2u16), (5, 3)] {
+            let mut rng = ScriptedRng::ctr("params");
+            o.eval(true);
+            let l = &long[..65536 + n as usize];
+            for (nm, ok) in [
+                ("split", C::w_split(&key, n, t, IdentifierList::Custom(l), &mut rng).is_ok()),
+                ("generate_with_dealer", C::w_generate_with_dealer(n, t, IdentifierList::Custom(l), &mut rng).is_ok()),
+            ] {
+                if ok {
+                    o.fail(format!("{tag}/identifier-count-not-checked"), format!("{nm}: n={n} with {} identifiers accepted", l.len()));
+                } else {
+                    o.count("invalid_params_refused", 1);
+                }
+            }
+        }
+    }
     // identifier list of wrong length / duplicates at every pair of positions
     for n in 2u16..=4 {
         let ids = make_ids::<C>(IdKind::U16x, n as usize + 1);
